@@ -566,7 +566,7 @@ func Run(r *fw.Run) {
 		l := fw.NewLocal()
 		slots := append([][2]string{}, c02.SweepSlots...)
 		slots = append(slots, [][2]string{
-			{"module example.com/m", "\n"}, {"module ", "example.com/m\n"}, {"module example.com/m //c", "\n\ngo 1.21\n"}, {"", "module example.com/m\n"},
+			{"module example.com/m", "\n"}, {"module ", "example.com/m\n"}, {"module", "example.com/m\n"}, {"module", "\"example.com/m\"\n"}, {"// c\nmodule", " example.com/m\n"}, {"module example.com/m //c", "\n\ngo 1.21\n"}, {"", "module example.com/m\n"},
 			{"module example.com/m\n\nrequire a.com/x v1.0.0 //", "\n"}, {"module example.com/m\n\nrequire a.com/x", " v1.0.0\n"}, {"module example.com/m\n\nrequire (\n\ta.com/x v1.0.0", "\n)\n"},
 			{"module example.com/m\n\nreplace a.com/x => \"../d", "\"\n"}, {"module example.com/m\n\nretract [v1.0.0, v1.1.0] // ", "\n"}, {"go 1.21\n\nuse ./a", "\n"}, {"go 1.21\n\nuse \"./a", "b\"\n"},
 		}...)
